@@ -34,7 +34,8 @@ def lanczos_iteration(Afunc, vstart, numiter):
     for j in range(numiter-1):
         w = Afunc(V[j])
         alpha[j] = np.vdot(w, V[j]).real
-        w -= alpha[j]*V[j] + (beta[j-1]*V[j-1] if j > 0 else 0)
+        # not in-place: 'Afunc' may return (a view of) its argument
+        w = w - (alpha[j]*V[j] + (beta[j-1]*V[j-1] if j > 0 else 0))
         # full re-orthogonalization against all previous Lanczos vectors,
         # compensating the loss of orthogonality in finite-precision arithmetic
         w -= V[:j+1].T @ (V[:j+1].conj() @ w)
@@ -83,7 +84,8 @@ def arnoldi_iteration(Afunc, vstart, numiter):
         # subtract the projections on previous vectors
         for k in range(j+1):
             H[k, j] = np.vdot(V[k], w)
-            w -= H[k, j]*V[k]
+            # not in-place: 'Afunc' may return (a view of) its argument
+            w = w - H[k, j]*V[k]
         H[j+1, j] = np.linalg.norm(w)
         if H[j+1, j] < 100*len(vstart)*np.finfo(float).eps:
             warnings.warn(
@@ -99,7 +101,7 @@ def arnoldi_iteration(Afunc, vstart, numiter):
     w = Afunc(V[j])
     for k in range(j+1):
         H[k, j] = np.vdot(V[k], w)
-        w -= H[k, j]*V[k]
+        w = w - H[k, j]*V[k]
 
     return H, V.T
 
